@@ -9,7 +9,9 @@ AST (python tuples)
         | ('if', c, blockA, blockB) | ('while', c, block) | ('for', x, ity, lo, hi, block[, inclusive?, step expr|None]) | ('match', e, ity, [(int, block)], default_block|None)
         | ('break',) | ('continue',) | ('return', e|None)
         | ('print', [es]) | ('expr', e) | ('block', block)
-  block: list of stmt.  fn: dict(params=[(x, ty)], ret=ty, body=block).  prog: list of fn, last is main.
+  block: list of stmt.  fn: dict(params=[(x, ty)], ret=ty, body=block[, method=True]).  prog: list of fn, last is main.
+  A method is a function whose first parameter (a struct, passed by value) is written as the receiver: `fn (v1: S0) m3(v2: i32)`,
+  called `recv.m3(arg)`; in the reference it is the plain function f3(recv, arg).
 """
 import re
 
@@ -52,7 +54,10 @@ def r_expr(e):
     if k == "bin": return "(%s %s %s)" % (r_expr(e[2]), e[1], r_expr(e[3]))
     if k == "un": return "(%s%s)" % (e[1], r_expr(e[2]))
     if k == "cast": return "(%s as %s)" % (r_expr(e[1]), e[2])
-    if k == "call": return "f%d(%s)" % (e[1], ", ".join(r_expr(a) for a in e[2]))
+    if k == "call":
+        if e[1] in METHODS and e[2]:
+            return "%s.m%d(%s)" % (r_expr(e[2][0]), e[1], ", ".join(r_expr(a) for a in e[2][1:]))
+        return "%s%d(%s)" % ("m" if e[1] in METHODS else "f", e[1], ", ".join(r_expr(a) for a in e[2]))
     if k == "slit": return "({ %s } as S%d)" % (", ".join(".F%d = %s" % (i, r_expr(a)) for i, a in enumerate(e[2])), e[1])
     if k == "field": return "%s.F%d" % (r_expr(e[1]), e[2])
     raise ValueError(e)
@@ -101,13 +106,21 @@ def r_stmt(s, ind):
     if k == "block": return [p + "{"] + r_block(s[1], ind + 1) + [p + "}"]
     raise ValueError(s)
 
+METHODS = set()     # indexes of the functions of the program being rendered that are methods (set by to_ferret)
+
 def r_fn(k, f, is_main):
     name = "main" if is_main else "f%d" % k
-    ps = ", ".join("v%d: %s" % (x, r_ty(t)) for x, t in f["params"])
+    params = f["params"]
+    if f.get("method") and params:
+        name = "(v%d: %s) m%d" % (params[0][0], r_ty(params[0][1]), k)
+        params = params[1:]
+    ps = ", ".join("v%d: %s" % (x, r_ty(t)) for x, t in params)
     ret = "" if f["ret"] == "void" else " -> %s" % r_ty(f["ret"])
     return ["fn %s(%s)%s {" % (name, ps, ret)] + r_block(f["body"], 1) + ["}", ""]
 
 def to_ferret(prog):
+    global METHODS
+    METHODS = {k for k, f in enumerate(prog) if f.get("method")}
     body = []
     for k, f in enumerate(prog):
         body += r_fn(k, f, k == len(prog) - 1)
@@ -572,6 +585,11 @@ class Gen:
         params = []
         if rec:
             params.append((self.fresh(), "i32"))
+        method = False
+        if self.structs and not rec and r.random() < 0.35:
+            method = True
+            params.append((self.fresh(), "S%d" % r.randrange(len(STRUCTS))))
+            self.feat("method")
         for _ in range(r.randint(0, 3)):
             params.append((self.fresh(), self.any_ty(with_struct=True)))
         env = [{x: (t, False) for x, t in params}]
@@ -586,7 +604,7 @@ class Gen:
         if block_exits(body):
             # every path already returns: anything appended would be rejected as unreachable code
             self.fns.append(([t for _, t in params], ret, rec))
-            return dict(params=params, ret=ret, body=body)
+            return dict(params=params, ret=ret, body=body, method=method)
         env2 = env + [{}]
         # the block's own scope is gone: only params are visible for the final return
         if rec:
@@ -603,7 +621,7 @@ class Gen:
         if ret != "void":
             body.append(("return", self.expr(ret, env, 2)))
         self.fns.append(([t for _, t in params], ret, False))
-        return dict(params=params, ret=ret, body=body)
+        return dict(params=params, ret=ret, body=body, method=method)
 
     def program(self):
         r = self.rng
